@@ -490,7 +490,10 @@ def judge(case):
         for c in case["calls"]:
             needle, num = c["needle"], c["num"]
             cnt = ref.count_label(t, needle)
-            accepted = {cnt} | ({cnt - 1} if t[0] == needle else set())
+            # the root is a node of the tree: a root labelled with the needle is one occurrence (the first version of this
+            # check also accepted cnt - 1 there; nothing in the documentation supports that reading and the code counts
+            # the root -- the tolerance hid seeded change C20-4)
+            accepted = {cnt}
             if t[0] == needle:
                 labels.add("count:root_is_needle")
             dt = rt.to_dt(t, with_ids=False)
@@ -530,7 +533,7 @@ def judge(case):
                         rv = rt.from_dt(v)
                         if not rt.valid(cg, rv, t[0], allow_open=True):
                             bad("count:replacement_invalid_tree", why=rt.why_invalid(cg, rv, t[0], True), **what)
-                        elif ref.count_label(rv, needle) not in ({k, k + 1} if t[0] == needle else {k}):
+                        elif ref.count_label(rv, needle) != k:
                             bad("count:replacement_wrong_count", observed=ref.count_label(rv, needle), **what)
                     else:
                         bad("count:replacement_not_a_tree", observed=_brief(v), **what)
